@@ -3,7 +3,7 @@ CONFIG = dict(
     valgrind_sample=240,
     programs=[("Sim1", "default", 2500, 7, 100000, 7), ("Sim2", "default", 4000, 2, 120000, 3),
               ("Sim3", "default", 4000, 2, 120000, 2), ("Sim1", "wide", 800, 2, 30000, 3),
-              ("Sim3", "compound", 0, 0, 30000, 1), ("Sim4", "default", 400, 1, 30000, 1), ("LDAP", "compound", 300, 1, 40000, 2), ("Sim6", "default", 200, 1, 10000, 1)],
+              ("Sim3", "compound", 0, 0, 30000, 1), ("Sim4", "default", 400, 1, 30000, 1), ("LDAP", "compound", 300, 1, 40000, 2), ("Sim6", "default", 200, 1, 10000, 1), ("Sim7", "compound", 300, 1, 20000, 1)],
     budget_quick=60, budget_thorough=1500,
     eval_counter="c04.decodes", nontrivial_set="c04.damaged_streams",
     rule="per run: one value, its DER (optionally a BER variant) / OER / BASIC-XER / UPER encodings, each passed 16 (quick) or 48 "
